@@ -7,6 +7,8 @@ import math
 
 import numpy as np
 
+from ..core import idx
+
 DEN = 1200
 CRS_A = "epsg:3857"
 
@@ -23,45 +25,100 @@ def _lat(v, scale=DEN, tol=1e-5):
     return int(r)
 
 
-def _apply(gb, o, gcp=False):
+def _region(gb, kind, r):
+    """the rectangle r (quarter pixels of gb's own pixel plane) presented as a region object"""
     from affine import Affine
 
-    from odc.geo.geobox import scaled_down_geobox
+    from odc.geo import geom as G
+    from odc.geo.geobox import GeoBox
+
+    x0, y0, x1, y1 = (v / 4 for v in r)
+    pix = [(x0, y0), (x1, y0), (x1, y1), (x0, y1)]
+    if kind == "pixgeom":
+        return G.polygon(pix + pix[:1], None)
+    wld = [gb.affine * p for p in pix]
+    if kind == "wldgeom":
+        return G.polygon(wld + wld[:1], gb.crs)
+    if kind == "wldbbox":
+        xs, ys = [p[0] for p in wld], [p[1] for p in wld]
+        return G.BoundingBox(min(xs), min(ys), max(xs), max(ys), gb.crs)
+    if kind == "geobox":
+        return GeoBox((1, 1), gb.affine * Affine.translation(x0, y0) * Affine.scale(x1 - x0, y1 - y0), gb.crs)
+    raise KeyError(kind)
+
+
+def _warm(gb):
+    """read every view a GeoBox offers (some are cached on the object): must not change what later operations return"""
+    for name in ("extent", "boundingbox", "resolution", "geographic_extent", "alignment", "linear", "axis_aligned", "dimensions", "aspect",
+                 "transform", "center_pixel"):
+        try:
+            getattr(gb, name)
+        except Exception:  # noqa: BLE001 - e.g. geographic extent of a box without CRS
+            pass
+    for fn in (lambda: gb.coordinates, lambda: gb.boundary(4), lambda: gb.footprint("epsg:4326"), lambda: gb.svg(), lambda: repr(gb), lambda: hash(gb)):
+        try:
+            fn()
+        except Exception:  # noqa: BLE001
+            pass
+
+
+def _apply(gb, o, gcp=False, via=0):
+    """via: which of the equivalent spellings the API offers is used (method / module-level function / defaulted second argument)"""
+    from affine import Affine
+
+    from odc.geo import geobox as GB
 
     op, p = o["op"], o["p"]
     h, w = gb.shape
+    fn = via % 2 == 1 and not gcp       # module-level function instead of the method
     if op == "crop":
-        roi = {"inner": np.s_[1:h, 1:w], "neg": np.s_[-2:, :-1], "int": 0, "intneg": -1, "cols": np.s_[:, 1:]}[p]
+        roi = {"inner": np.s_[1:h, 1:w], "neg": np.s_[-2:, :-1], "int": 0, "intneg": -1, "cols": np.s_[:, 1:], "full": np.s_[:, :], "rows": np.s_[1:],
+               "colint": np.s_[:, 0], "pix": np.s_[1, 2], "pixneg": np.s_[-1, -1], "rowcols": np.s_[0, 1:]}[p]
         return gb[roi]
+    if op == "crop_region":
+        return gb[_region(gb, p["kind"], p["r"])]
     if op == "pad":
-        return gb.pad(p[0], p[1]) if p[0] != p[1] else gb.pad(p[0])
+        if p[0] == p[1] and via % 4 < 2:
+            return GB.pad(gb, p[0]) if fn else gb.pad(p[0])
+        return GB.pad(gb, p[0], p[1]) if fn else gb.pad(p[0], p[1])
     if op == "pad_wh":
-        return gb.pad_wh(p[0], p[1]) if p[0] != p[1] else gb.pad_wh(p[0])
+        if p[0] == p[1] == 16 and via % 4 < 2:
+            return GB.pad_wh(gb) if fn else gb.pad_wh()
+        if p[0] == p[1] and via % 4 < 2:
+            return GB.pad_wh(gb, p[0]) if fn else gb.pad_wh(p[0])
+        return GB.pad_wh(gb, p[0], p[1]) if fn else gb.pad_wh(p[0], p[1])
     if op == "expand":
-        return gb.expand((h + p[0], w + p[1]))
+        return gb.expand((h + p[0], w + p[1])) if via % 2 == 0 else gb.crop((h + p[0], w + p[1]))
     if op == "translate_pix":
-        return gb.translate_pix(p[0] / 2, p[1] / 2)
+        return GB.translate_pix(gb, p[0] / 2, p[1] / 2) if fn else gb.translate_pix(p[0] / 2, p[1] / 2)
     if op in ("flipx", "flipy"):
-        return getattr(gb, op)()
+        return getattr(GB, op)(gb) if fn else getattr(gb, op)()
     if op == "rotate":
-        return gb.rotate(math.degrees(math.atan2(4, 3)) if p == 53 else float(p))
+        deg = math.degrees(math.atan2(4, 3)) if p == 53 else float(p)
+        return GB.rotate(gb, deg) if fn else gb.rotate(deg)
     if op == "zoom_out":
-        return gb.zoom_out(2 if p == 2 else 0.5)
+        f = {1: 0.5, 10: 1.0}.get(p, p)
+        return GB.zoom_out(gb, f) if fn else gb.zoom_out(f)
     if op == "zoom_to":
         shape = {"tall": (2 * h, w), "wide": (h, 2 * w), "half": (-(-h // 2), -(-w // 2))}[p]
-        return gb.zoom_to(shape)
+        return GB.zoom_to(gb, shape) if fn else gb.zoom_to(shape)
     if op == "zoom_to_n":
         nmax = max(h, w)
-        return gb.zoom_to(2 * nmax if p == "double" else -(-nmax // 2))
+        n = 2 * nmax if p == "double" else -(-nmax // 2)
+        return GB.zoom_to(gb, n) if fn else gb.zoom_to(n)
     if op == "scaled_down":
-        return scaled_down_geobox(gb, p)
+        return GB.scaled_down_geobox(gb, p)
     if op == "buffered":
         rx, ry = gb.resolution.xy
-        return gb.buffered(1.5 * abs(rx), 1.0 * abs(ry))
+        bx, by = p[0] / 10 * abs(rx), p[1] / 10 * abs(ry)
+        if bx == by and via % 2 == 1:
+            return gb.buffered(bx)
+        return gb.buffered(bx, by)
     if op in ("left", "right", "top", "bottom", "center_pixel"):
         return getattr(gb, op)
     if op == "mul":
-        return gb * (Affine.scale(2, 2) if p == "scale2" else Affine.translation(1, 1))
+        T = Affine.scale(2, 2) if p == "scale2" else Affine.translation(1, 1)
+        return GB.affine_transform_pix(gb, T) if fn else gb * T
     if op == "rmul":
         return (Affine.scale(2, 2) if p == "scale2" else Affine.translation(5, -5)) * gb
     raise KeyError(op)
@@ -86,7 +143,7 @@ def execute(case):
 
     pre, o = case["pre"], case["op"]
     gcp = bool(case.get("gcp"))
-    ev = {"pre": pre, "op": o, "outcome": "ok", "post": {"h": 0, "w": 0, "A": [], "crs_same": True}, "v": {}, "gcp": gcp, "view": case.get("view", "identity")}
+    ev = {"pre": pre, "op": o, "warm": bool(case.get("warm")), "via": case.get("via", 0), "outcome": "ok", "post": {"h": 0, "w": 0, "A": [], "crs_same": True}, "v": {}, "gcp": gcp, "view": case.get("view", "identity")}
     try:
         A = Affine(*[v / DEN for v in pre["A"]])
         crs = CRS_A if pre["crs"] == "A" else None
@@ -101,8 +158,10 @@ def execute(case):
             gb = GCPGeoBox((pre["h"], pre["w"]), GCPMapping(pix, wld, crs), V)
         else:
             gb = GeoBox((pre["h"], pre["w"]), A, crs)
-        r = _apply(gb, o)
-        h, w = (int(v) for v in r.shape)
+        if case.get("warm"):
+            _warm(gb)
+        r = _apply(gb, o, gcp, case.get("via", 0))
+        h, w = (idx(v) for v in r.shape)
         corners = [(0, 0), (w, 0), (w, h), (0, h)]
         p2w = [r.pix2wld(float(x), float(y)) for x, y in corners]
         tol = 1e-3 if gcp else 1e-5
@@ -175,13 +234,17 @@ def run(ctx):
     cases.sort(key=lambda c: json.dumps(c, sort_keys=True))
     total = len(cases)
     cases = ctx.subsample(cases, 16000 if q else 300000)
+    # the spelling of the call (method / module-level function, second argument given / defaulted) is not part of the abstract operation:
+    # it is drawn per case from the case itself (stable), so that every operation is exercised under each of its spellings
+    import zlib
+    cases = [dict(c, via=zlib.crc32(json.dumps(c, sort_keys=True).encode()) % 4) for c in cases]
     # GCP variant: the same transitions (operations the class supports) on a GCP box with affinely related control points
     gcases = [dict(c, gcp=True, view=sorted(GCP_VIEWS)[i % len(GCP_VIEWS)]) for i, c in enumerate(cases) if c["op"]["op"] in GCP_OPS and c["pre"]["A"][1] != 0 or c["op"]["op"] in GCP_OPS and c["pre"]["h"] > 1]
     gcases = ctx.subsample(gcases, 3000 if q else 40000)
     events = ctx.pmap(execute, cases + gcases)
     verdicts = _validate(ctx, events)
     for ev, v in zip(events, verdicts):
-        case = {"pre": ev["pre"], "op": ev["op"], "gcp": ev["gcp"], "view": ev.get("view", "identity")}
+        case = {"pre": ev["pre"], "op": ev["op"], "gcp": ev["gcp"], "view": ev.get("view", "identity"), "warm": ev["warm"], "via": ev["via"]}
         ctx.record(case, v, op=("gcp:" if ev["gcp"] else "") + ev["op"]["op"], nontrivial=True,
                    sample={"pre": ev["pre"], "op": ev["op"], "post": ev["post"]})
     ctx.traces_validated = len(events)
